@@ -40,7 +40,7 @@ def block_seeds():
     mp = os.path.join(V, "seeded", "MATRIX.txt")
     if os.path.exists(mp):
         for l in open(mp):
-            m = re.match(r"(C\d\d-[AB]): (.*)", l)
+            m = re.match(r"(C\d\d-[A-Z]): (.*)", l)
             if m:
                 matrix[m.group(1)] = m.group(2).split(" :: ")[0]
     out = ["| seed | where | what the change does | result of the property's quick check |", "|---|---|---|---|"]
